@@ -116,6 +116,11 @@ SeqPres ==
        [p |-> "seq", len |-> 3, es |-> <<U8(1), U8(2)>>], [p |-> "seq", len |-> 1, es |-> <<U8(1), U8(2)>>],
        [p |-> "seq", len |-> 2, es |-> <<U8(1), IP("i32", 300)>>], [p |-> "seq", len |-> -1, es |-> <<U8(1), IP("i32", 300)>>],
        [p |-> "seq", len |-> -1, es |-> <<U8(1), [p |-> "fail"]>>],
+       \* every integer width as a would-be byte: negative i8 / i16 / i64 elements and an i16 above 255 are not bytes
+       [p |-> "seq", len |-> 3, es |-> <<IP("i8", 0), IP("i8", 1), IP("i8", -1)>>], [p |-> "seq", len |-> -1, es |-> <<IP("i8", 5), IP("i8", -128)>>],
+       [p |-> "seq", len |-> 2, es |-> <<IP("i8", 5), IP("i8", 127)>>], [p |-> "seq", len |-> 2, es |-> <<IP("i16", 1), IP("i16", -1)>>],
+       [p |-> "seq", len |-> 2, es |-> <<IP("i16", 1), IP("i16", 256)>>], [p |-> "seq", len |-> 2, es |-> <<IP("i64", 1), IP("i64", -1)>>],
+       [p |-> "seq", len |-> 2, es |-> <<IP("u16", 1), IP("u16", 255)>>], [p |-> "tuple", es |-> <<IP("i8", 1), IP("i8", -1)>>],
        [p |-> "seq", len |-> 3, es |-> <<U8(1), U8(2), U8(3)>>],
        [p |-> "seq", len |-> 3, es |-> <<U32(1), U32(2), U32(3)>>], [p |-> "seq", len |-> -1, es |-> <<U32(1), U32(2), U32(3)>>],
        [p |-> "seq", len |-> 2, es |-> <<U32(1), U32(2)>>], [p |-> "seq", len |-> -1, es |-> <<U32(1), U32(2), U32(3), U32(4)>>],
